@@ -596,6 +596,7 @@ void runPair(const Op& op, Ctx& ctx) {
 void pbt_run(const Case& c, Ctx& ctx) {
   setenv(MARKER, "init", 1);
   unsetenv("C20_P0"); unsetenv("C20_P1"); unsetenv("C20_P2"); unsetenv("C20_MARKER2");   // a case is a pure function of its text
+  setenv("C20_EMPTY", "", 1);   // (a variable with an empty value is part of every inherited environment)
   int fds0 = countFds();
   {
     Pending pd;
